@@ -216,7 +216,9 @@ RetOk(e) ==
        /\ IF r.folded
           THEN \* C12/C15: empty body; the returned URI carries exactly the merged parameters
                /\ ret.body = <<>>
-               /\ LET pq == Split2(ret.uri, 63)
+               \* (the rebuilt target is in origin form, or keeps the submitted scheme and authority)
+               /\ AuthLen(ret.uri) = 0 \/ SubSeq(ret.uri, 1, AuthLen(ret.uri)) = SubSeq(env.uri, 1, AuthLen(env.uri))
+               /\ LET pq == Split2(OriginForm(ret.uri), 63)
                       rq == IF Len(pq) = 2 THEN pq[2] ELSE <<>>
                       pr == CanonPathG(pq[1], BE.cfg.s3, UseKF(BE))
                   IN /\ pr.ok /\ cpath \in pr.outs
